@@ -1,7 +1,7 @@
 (* Properties_C03.v — selection and loop statements execute exactly the documented control flow.
    The combinators are the ones the evaluator uses (first two theorems); their laws hold for
    arbitrary condition and body computations. *)
-From PE2 Require Import Eval Control Lemmas_Control.
+From PE2 Require Import Eval Control Lemmas_Control Run Lemmas_ForStates.
 Local Open Scope Z_scope.
 
 Theorem C03_evaluator_uses_combinators : forall ped repl lim f t cond body c,
@@ -85,3 +85,11 @@ Print Assumptions C03_for_final_is_first_past_stop.
 Example C03_for_examples :
   for_values 10 1 5 2 = ([1; 3; 5], 7) /\ for_values 10 5 1 (-2) = ([5; 3; 1], -1) /\ for_values 10 5 1 1 = ([], 5).
 Proof. vm_compute. repeat split; reflexivity. Qed.
+
+(* the FOR header, in every state: a counter that exists and is not an INTEGER variable is a runtime error raised before any bound is
+   evaluated; the whole state is as it was *)
+Theorem C03_for_counter_must_be_an_integer_variable : forall ped repl lim fuel t id start stop step body c s i cl,
+  lookup_var c (tval id) true s = (Ok (Some i), s) -> nm_get i (s_cells s) = Some cl -> c_const cl = false -> dk (c_type cl) <> KInt ->
+  exists f, ev_eval (evs_at ped repl lim (S fuel)) (NFor t id start stop step body) c s = (Fail f, s).
+Proof. exact for_counter_must_be_an_integer_variable. Qed.
+Print Assumptions C03_for_counter_must_be_an_integer_variable.
